@@ -214,3 +214,148 @@ def histories(seed, tier, extra_packets=()):
     for i in range(nrand // 5):
         out.append(scen(None, random_history(rnd, rnd.randint(3, 10)), synth=rnd.choice(["empty", "example.com", "a"])))
     return out
+
+
+# ------------------------------------------------------------------------------------------------
+# C11: sections of 0..n records, each with its own TTL, OPT at every position, compressed or not
+
+def walk_packets(maxn, rnd=None):
+    """yields (packet, section, list of ttl identities in wire order, index of OPT or None)"""
+    out = []
+    q = name("w", "ex") + [0, 1, 0, 1]
+    for compressed in (False, True):
+        for sec in ("AN", "NS", "AR"):
+            for n in range(0, maxn + 1):
+                opt_positions = [None] + (list(range(n)) if sec == "AR" else [])
+                for op in opt_positions:
+                    recs, ids = [], []
+                    for i in range(n):
+                        ttl = 100 + i
+                        if op == i:
+                            # OPT: its "TTL" field is ext-rcode/version/flags; version must stay 0..255, use flags for identity
+                            ttl = (0 << 24) | (0 << 16) | (0x8000 + 100 + i)
+                            r = [0, 0, 41, 4, 208] + list(ttl.to_bytes(4, "big")) + [0, 4, 0, 10, 0, 0]
+                        else:
+                            kind = i % 3
+                            if compressed:
+                                owner = [ptr(12), [1, 97 + i] + ptr(14), ptr(12)][kind]
+                            else:
+                                owner = [name("w", "ex"), name(chr(97 + i), "ex"), name("w", "ex")][kind]
+                            if kind == 2:
+                                rd = (ptr(14) if compressed else name("ex"))
+                                r = rr(owner, 2, ttl, rd)
+                            else:
+                                r = rr(owner, 1, ttl, [10, 0, 0, i])
+                        recs += r
+                        ids.append(list(ttl.to_bytes(4, "big")))
+                    an, ns, ar = (n if sec == "AN" else 0), (n if sec == "NS" else 0), (n if sec == "AR" else 0)
+                    # a neighbour section so that section offsets behind the walked one exist
+                    extra_ar = [] if sec == "AR" else rr(name("z"), 1, 7, [7, 7, 7, 7])
+                    pkt = hdr(9, 0x8180, 1, an, ns, ar + (0 if sec == "AR" else 1)) + q + recs + extra_ar
+                    out.append((pkt, sec, ids, op))
+    return out
+
+
+def walks(tier):
+    import itertools
+    maxn = 4 if tier == "quick" else 6
+    out = []
+    for pkt, sec, ids, op in walk_packets(maxn):
+        n = len(ids)
+        for incl in ([False, True] if sec == "AR" else [False]):
+            cand = [i for i in range(n) if incl or i != op]
+            subsets = []
+            for k in range(0, len(cand) + 1):
+                subsets += list(itertools.combinations(cand, k))
+            if tier == "quick" and n >= 4:
+                subsets = subsets[::2] + [tuple(cand)]
+            for D in subsets:
+                out.append(json.dumps({"do": "walk", "pkt": pkt, "sec": sec, "incl": incl, "twice": True, "del_q": False,
+                                       "del": [ids[i] for i in D], "max_yields": (n + 2) * (n + 2)}, separators=(",", ":")))
+    # the question section: delete it or not; compressed owners point at it
+    for b in base_packets()[:6]:
+        for dq in (False, True):
+            out.append(json.dumps({"do": "walk", "pkt": b, "sec": "Q", "incl": False, "twice": True, "del_q": dq, "del": [], "max_yields": 8}, separators=(",", ":")))
+    return out
+
+
+# ------------------------------------------------------------------------------------------------
+# behaviours enumerated by TLC (spec/Gen_Hist.tla) mapped to concrete operations
+
+SET_A = name("ac", "d")          # 6 bytes
+SET_B = name("zz", "k")          # 6 bytes: after SET_A an equal-length change
+SET_LONG = name("longer", "owner", "name", "ex")
+ABSTRACT = {
+    "read_question": lambda: {"op": "read_question"},
+    "recompute": lambda: {"op": "recompute"},
+    "clear_qr": lambda: {"op": "set_response", "v": False},
+    "insert_an": lambda: op_insert("AN", 0),
+    "insert_q": lambda: {"op": "insert_q", "name": L("nq.x"), "labels": [L("nq"), L("x")]},
+    "rename": lambda: {"op": "rename", "target": name("net"), "source": name("ex"), "suffix": True},
+    "q_setA": lambda: cursor_op("Q", False, 0, [("set_raw_name", SET_A)]),
+    "q_setB": lambda: cursor_op("Q", False, 0, [("set_raw_name", SET_B)]),
+    "q_delete": lambda: cursor_op("Q", False, 0, [("delete", [])]),
+    "an_setA": lambda: cursor_op("AN", False, 0, [("set_raw_name", SET_A), ("next", [])]),
+    "an_setLong": lambda: cursor_op("AN", False, 0, [("set_raw_name", SET_LONG), ("next", [])]),
+    "an_delete": lambda: cursor_op("AN", False, 0, [("delete", []), ("next", [])]),
+    "an_uncompress": lambda: cursor_op("AN", False, 0, [("uncompress", []), ("next", [])]),
+    "opt_delete": lambda: cursor_op("AR", True, 0, [("delete", [])]),
+    "ar1_setB": lambda: cursor_op("AR", True, 1, [("set_raw_name", SET_B)]),
+    "opt_set_ttl": lambda: cursor_op("AR", True, 0, [("set_ttl", [1, 0, 128, 0])]),
+}
+
+
+def behaviour_bases():
+    """two bases on which every abstract operation is meaningful: compressed, answers, OPT first
+    in the additional section followed by a record"""
+    q = name("q", "ex") + [0, 1, 0, 1]
+    b1 = hdr(11, 0x8180, 1, 2, 0, 2) + q + rr(ptr(12), 1, 60, [1, 2, 3, 4]) + rr([1, 120] + ptr(12), 5, 9, ptr(14)) + opt([(10, [1, 2])]) + rr([2, 110, 115] + ptr(14), 1, 4, [8, 8, 8, 8])
+    b2 = hdr(12, 0x8500, 1, 1, 1, 2) + q + rr(name("q", "ex"), 15, 60, [0, 5] + name("mx", "ex")) + rr(name("ex"), 2, 7, name("ns", "ex")) + opt() + rr(name("ns", "ex"), 28, 4, [0] * 15 + [3])
+    return [b1, b2]
+
+
+def behaviours(seqs, bases):
+    out = []
+    for b in bases:
+        for s in seqs:
+            out.append(scen(b, [ABSTRACT[o]() for o in s]))
+    return out
+
+
+# ------------------------------------------------------------------------------------------------
+# C10: the size limit from every starting size
+
+def size_limit_histories():
+    """Packets whose decompressed size sits at 8192 - len(record) + {-1, 0, +1}, as compressed and
+    as pointer-free wire images, and packets already larger than 8192 / 16384 bytes (as arrive
+    over TCP); the history inserts one small record and reads the question."""
+    out = []
+    ins = op_insert("AN", 0)                 # x.a. 5 IN A 1.1.1.1 : 5 + 10 + 4 = 19 bytes
+    rrlen = 19
+    qn = name("q" * 60, "r" * 60, "s" * 60)          # 184 bytes
+    q = qn + [0, 1, 0, 1]
+    for compressed in (True, False):
+        for d in (-1, 0, 1, 40):
+            target = 8192 - rrlen + d          # wanted pointer-free size
+            owner_wire = ptr(12) if compressed else qn
+            recs = []
+            usize = 12 + len(q)
+            n = 0
+            while usize + (len(qn) + 14) + (len(qn) + 10 + 1) <= target:
+                recs += rr(owner_wire, 1, 50 + n, [1, 1, 1, n % 250])
+                usize += len(qn) + 14
+                n += 1
+            # filler TXT sized so that the pointer-free size is exactly `target`
+            fill = target - usize - (len(qn) + 10)
+            recs += rr(owner_wire, 16, 3, [97] * fill)
+            n += 1
+            pkt = hdr(13, 0x8180, 1, n, 0, 0) + q + recs
+            out.append(scen(pkt, [ins, {"op": "read_question"}, op_insert("AR", 3)]))
+    for total in (9000, 20000, 60000):
+        recs, n = [], 0
+        while 12 + len(q) + len(recs) + 260 < total:
+            recs += rr(ptr(12), 16, 70 + n, [98] * 200)
+            n += 1
+        pkt = hdr(14, 0x8180, 1, n, 0, 0) + q + recs
+        out.append(scen(pkt, [ins, op_insert("AR", 5), {"op": "read_question"}]))
+    return out
